@@ -6,10 +6,16 @@ use futures_util::{SinkExt, StreamExt};
 use serde::Serialize;
 use serde::de::DeserializeOwned;
 use serde_json::Value;
+#[cfg(repe_verif)]
+use crate::verif_seam::collections::HashMap;
+#[cfg(repe_verif)]
+use crate::verif_seam::tokio_net::TcpStream;
+#[cfg(not(repe_verif))]
 use std::collections::HashMap;
 use std::io::ErrorKind;
 use std::sync::atomic::{AtomicU64, Ordering};
 use std::sync::{Arc, Mutex as StdMutex};
+#[cfg(not(repe_verif))]
 use tokio::net::TcpStream;
 use tokio::sync::mpsc;
 use tokio::sync::{Mutex, oneshot};
@@ -149,7 +155,13 @@ impl WebSocketClient {
     ) -> std::io::Result<Self> {
         // `disable_nagle: false` matches what `connect_async` passes, so the
         // only behavior this changes is the configured limits.
+        #[cfg(not(repe_verif))]
         let (stream, _response) = connect_async_with_config(url, Some(limits.into()), false)
+            .await
+            .map_err(websocket_connect_error)?;
+        // Verification build: the same client handshake over a simulated stream.
+        #[cfg(repe_verif)]
+        let (stream, _response) = crate::verif_seam::ws_connect(url, Some(limits.into()))
             .await
             .map_err(websocket_connect_error)?;
         let (writer, reader) = stream.split();
@@ -164,6 +176,12 @@ impl WebSocketClient {
         spawn_response_loop(reader, Arc::downgrade(&inner));
 
         Ok(Self { inner })
+    }
+
+    /// Verification probe: number of calls currently registered as awaiting a response.
+    #[cfg(repe_verif)]
+    pub fn verif_pending_len(&self) -> usize {
+        lock_pending_map(&self.inner.pending).len()
     }
 
     /// This connection's size limits.
